@@ -254,7 +254,10 @@ def _is_call(t, meth, arg=None):
 
 def _sh_absolute_path(cx, g, field):
     t, pol = T.strip_not(g[0], g[1])
-    return pol and _is_call(t, "startswith", "/") and field in cx.self_attrs_in(t[1][1])
+    # ... asked of the stored value itself: a copy that went through a fixing helper first (``self._fix_path(p).startswith("/")``)
+    # can pass while the value that is written is still absolute
+    return pol and _is_call(t, "startswith", "/") and field in cx.self_attrs_in(t[1][1]) \
+        and not T.contains(t[1][1], lambda x: x[0] == "call" and not (x[1][0] == "global" and x[1][1] in ("sorted", "list", "set", "tuple")))
 
 
 def _sh_arch_not_in_parent(cx, g, field):
@@ -1401,6 +1404,15 @@ def check_c06(model, rep, tier):
     r_dump_validates(model, rep)
     r_val_cover(model, rep)
     r_val_strength(model, rep, tier)
+    # the uid / parent-arch alignment refusals compare with the parent: they mean something only if add() sets the parent
+    # pointer of every real variant (of both formats) before validating it - the obligation of C11, held here as well
+    from ..core import Report as _Report
+    from .forest import r_forest_validators
+    tmp_ = _Report("C11", tier)
+    r_forest_validators(model, tmp_)
+    for o_ in tmp_.obligations:
+        if o_.construct == "VariantBase.add:parent-set-before-validate":
+            rep.ob("R-VAL-STRENGTH", o_.construct, o_.ok, site=o_.site, msg=o_.msg)
     r_table_shape(model, rep)
     r_label_lang(model, rep)
     r_assert_helpers(model, rep)
